@@ -144,6 +144,8 @@ def run_symbolic(spec):
         names = list(scn.names)
         nfree = getattr(scn, "nfree", 0)
         nexp = len(names) - nfree
+        global MAXDEN
+        MAXDEN = int(getattr(scn, "max_witness_den", 10**8))
         res = dict(spec=spec, ok=True, leaves=[], violations=[], obligations=0, discharged=0, undecided=0,
                    ob_queries={"sat": 0, "unsat": 0, "unknown": 0}, functions=[])
         import z3
